@@ -37,6 +37,8 @@ Record carrier_iface : Prop := {
   ci_mult_div : forall z g f, jsmall z -> ok f -> (value f == inject_Z g)%Q ->
                   (g <= 0 -> n_mult_of N (n_of_int N z) f = MNotPositive) /\
                   (0 < g -> z mod g = 0 -> n_mult_of N (n_of_int N z) f = MOk);
+  (* ... and a factor <= 0 is reported whatever the value *)
+  ci_mult_neg : forall a f, ok f -> n_le N f (n_of_int N 0) = true -> n_mult_of N a f = MNotPositive;
 }.
 Hypothesis Y : carrier_iface.
 
@@ -185,11 +187,12 @@ Proof.
     destruct excl; rewrite Hv; tauto.
 Qed.
 
-(* the factor of multipleOf against an integer carrier: a fraction (the float path is taken by both), or a small integer *)
+(* the factor of multipleOf against an integer carrier: a fraction (the float path is taken by both), an integral factor that is
+   <= 0 or divides the value, or - under [mult_iface] - any small integer *)
 Definition tmult (q : simple) (k : ikind) (z : Z) : Prop :=
   match q_multiple_of q with
   | None => True
-  | Some f => ok f /\ ((ikind_signed k = true /\ n_exact_int N f = None) \/
+  | Some f => ok f /\ (n_exact_int N f = None \/
                        (exists g, (value f == inject_Z g)%Q /\ small g /\ jsmall z /\ (g <= 0 \/ z mod g = 0)) \/
                        (mult_iface /\ exists g, (value f == inject_Z g)%Q /\ small26 g /\ small26 z))
   end.
@@ -198,13 +201,17 @@ Lemma small26_small z : small26 z -> small z.
 Proof. unfold small26, small. intros [H1 H2]. split; [eapply Z.le_trans; [|exact H1] | eapply Z.le_trans; [exact H2|]]; [apply Z.opp_le_mono; rewrite !Z.opp_involutive|]; apply Z.pow_le_mono_r; lia. Qed.
 
 Lemma mult_int_carrier k z f : small z -> in_kind k z -> ok f ->
-  ((ikind_signed k = true /\ n_exact_int N f = None) \/
+  (n_exact_int N f = None \/
    (exists g, (value f == inject_Z g)%Q /\ small g /\ jsmall z /\ (g <= 0 \/ z mod g = 0)) \/
    (mult_iface /\ exists g, (value f == inject_Z g)%Q /\ small26 g /\ small26 z)) ->
   mult_native N (VInt k z) f = mult_native N (VFlt false (n_of_int N z)) f.
 Proof.
-  intros Hs Hk Hf [[Hsg Hn] | [[g [Hv [Hg [Hz Hd]]]] | [HM [g [Hv [Hg Hz]]]]]].
-  - cbn [mult_native as_float64]. rewrite Hsg. unfold as_int64_exact. rewrite Hn. reflexivity.
+  intros Hs Hk Hf [Hn | [[g [Hv [Hg [Hz Hd]]]] | [HM [g [Hv [Hg Hz]]]]]].
+  - (* a fractional factor: the float path on both sides; an unsigned carrier looks at the sign of the factor first *)
+    cbn [mult_native as_float64]. destruct (ikind_signed k).
+    + unfold as_int64_exact. rewrite Hn. reflexivity.
+    + destruct (n_le N f (n_of_int N 0)) eqn:E; [rewrite (ci_mult_neg Y _ f Hf E); reflexivity|].
+      unfold as_uint64_exact. rewrite Hn. reflexivity.
   - rewrite (mult_native_int_exact N value ok X k z f g Hs (in_kind_unsigned k z Hk) Hf Hv Hg).
     cbn [mult_native as_float64]. destruct (ci_mult_div Y z g f Hz Hf Hv) as [C1 C2].
     destruct (Z.leb_spec g 0) as [Hle|Hgt]; [rewrite (C1 Hle); reflexivity|].
